@@ -1471,6 +1471,96 @@ theorem genMsg_legacy (m : RxMsg) :
   unfold RxMsg.genMsg
   repeat' split
   all_goals simp_all
+theorem validateCommon_of (ver fn tn : Int) (hv : ver = 0 ∨ ver = 1) (f0 : 0 ≤ fn) (f1 : fn < 2715648)
+    (t0 : 0 ≤ tn) (t1 : tn ≤ 7) : validateCommon ver (some fn) (some tn) = .ok () := by
+  unfold validateCommon
+  have a : ¬ (fn < 0 ∨ fn ≥ Gen.Trxd.gsmHyperframe) := by simp only [Gen.Trxd.gsmHyperframe]; omega
+  have b : ¬ (tn < 0 ∨ tn > 7) := by omega
+  have c : Gen.Trxd.knownVersions.contains ver = true := (knownVersions_contains ver).2 hv
+  simp only [a, b, c, not_true, if_false]
+
+theorem validateMeas_of (m : RxMsg) (r t : Int) (hr : m.rssi = some r) (ht : m.toa256 = some t)
+    (r0 : -120 ≤ r) (r1 : r ≤ -47) (t0 : -32768 ≤ t) (t1 : t ≤ 32767) : m.validateMeas = .ok () := by
+  unfold RxMsg.validateMeas
+  have a : ¬ (r < Gen.Trxd.rssiMin ∨ r > Gen.Trxd.rssiMax) := by
+    simp only [Gen.Trxd.rssiMin, Gen.Trxd.rssiMax]; omega
+  have b : ¬ (t < Gen.Trxd.toa256Min ∨ t > Gen.Trxd.toa256Max) := by
+    simp only [Gen.Trxd.toa256Min, Gen.Trxd.toa256Max]; omega
+  simp only [hr, ht, a, b, if_false]
+
+theorem validateCi_of (m : RxMsg) (c : Int) (hc : m.ci = some c) (c0 : -1280 ≤ c) (c1 : c ≤ 1280) :
+    m.validateCi = .ok () := by
+  unfold RxMsg.validateCi
+  have a : ¬ (c < Gen.Trxd.ciMin ∨ c > Gen.Trxd.ciMax) := by
+    simp only [Gen.Trxd.ciMin, Gen.Trxd.ciMax]; omega
+  split
+  · simp only [hc, a, if_false]
+  · rfl
+
+theorem validateMts_of (m : RxMsg) (mod : Modulation) (set tsc : Int) (hmod : m.modType = some mod)
+    (hset : m.tscSet = some set) (htsc : m.tsc = some tsc) (s0 : set = 0) (t0 : 0 ≤ tsc) (t1 : tsc ≤ 7) :
+    m.validateMts = .ok () := by
+  unfold RxMsg.validateMts
+  split
+  · have a : ¬ (if mod = Modulation.gmsk then ¬(0 ≤ set ∧ set < 4) else ¬(0 ≤ set ∧ set < 2)) := by
+      split <;> omega
+    have b : Gen.Trxd.tscRange.contains tsc = true := (tscRange_contains tsc).2 ⟨t0, t1⟩
+    simp only [hmod, hset, htsc, b, not_true, if_false]
+    rw [if_neg a]
+  · rfl
+
+/-- a version-0 burst indication with in-range header fields and a 148/444 soft-bit burst validates -/
+theorem validate_v0 (m : RxMsg) (fn tn r t : Int) (b : List Int) (hver : m.ver = 0)
+    (hfn : m.fn = some fn) (htn : m.tn = some tn) (f0 : 0 ≤ fn) (f1 : fn < 2715648)
+    (n0 : 0 ≤ tn) (n1 : tn ≤ 7) (hr : m.rssi = some r) (ht : m.toa256 = some t)
+    (r0 : -120 ≤ r) (r1 : r ≤ -47) (t0 : -32768 ≤ t) (t1 : t ≤ 32767)
+    (hb : m.burst = some b) (hl : b.length = 148 ∨ b.length = 444) : m.validate = .ok () := by
+  unfold RxMsg.validate
+  rw [hver, hfn, htn, validateCommon_of 0 fn tn (.inl rfl) f0 f1 n0 n1]
+  dsimp only
+  rw [validateMeas_of m r t hr ht r0 r1 t0 t1]
+  dsimp only
+  have hv : ¬ (m.ver ≥ 1) := by omega
+  have e1 : m.validateMts = .ok () := by
+    unfold RxMsg.validateMts
+    rw [if_neg (fun h => hv h.1)]
+  have e2 : m.validateCi = .ok () := by
+    unfold RxMsg.validateCi
+    rw [if_neg hv]
+  rw [e1, e2]
+  dsimp only
+  unfold RxMsg.validateBurst RxMsg.validateBurstV0
+  rw [if_pos hver, hb]
+  dsimp only
+  have : ¬¬ (b.length = Gen.Trxd.gmskBurstLen ∨ b.length = Gen.Trxd.edgeBurstLen) := by
+    simp only [Gen.Trxd.gmskBurstLen, Gen.Trxd.edgeBurstLen]; omega
+  rw [if_neg this]
+
+/-- a version-1 burst indication with in-range fields validates -/
+theorem validate_v1 (m : RxMsg) (fn tn r t c set tsc : Int) (mod : Modulation) (b : List Int)
+    (hver : m.ver = 1) (hfn : m.fn = some fn) (htn : m.tn = some tn) (f0 : 0 ≤ fn) (f1 : fn < 2715648)
+    (n0 : 0 ≤ tn) (n1 : tn ≤ 7) (hr : m.rssi = some r) (ht : m.toa256 = some t)
+    (r0 : -120 ≤ r) (r1 : r ≤ -47) (t0 : -32768 ≤ t) (t1 : t ≤ 32767)
+    (hc : m.ci = some c) (c0 : -1280 ≤ c) (c1 : c ≤ 1280)
+    (hmod : m.modType = some mod) (hset : m.tscSet = some set) (htsc : m.tsc = some tsc)
+    (s0 : set = 0) (q0 : 0 ≤ tsc) (q1 : tsc ≤ 7)
+    (hn : m.nopeInd = false) (hb : m.burst = some b) (hl : b.length = mod.bl) : m.validate = .ok () := by
+  unfold RxMsg.validate
+  rw [hver, hfn, htn, validateCommon_of 1 fn tn (.inr rfl) f0 f1 n0 n1]
+  dsimp only
+  rw [validateMeas_of m r t hr ht r0 r1 t0 t1]
+  dsimp only
+  rw [validateMts_of m mod set tsc hmod hset htsc s0 q0 q1, validateCi_of m c hc c0 c1]
+  dsimp only
+  unfold RxMsg.validateBurst RxMsg.validateBurstV1
+  have h0 : ¬ (m.ver = 0) := by omega
+  have h1 : m.ver ≥ 1 := by omega
+  rw [if_neg h0, if_pos h1, hn, hb]
+  dsimp only
+  rw [hmod]
+  dsimp only
+  rw [if_neg (by omega)]
+
 end OsmoVerif.World.Codec
 
 namespace OsmoVerif.World
@@ -2277,5 +2367,96 @@ theorem FwdCall.spec {w : World} {k j : Nat} {s : Trxd.TxMsg} {r src : Trx} {fn 
     CallSpec r src s fn bits dk ∧ CallWorld w k r src fn w' := by
   obtain ⟨hk, hj, hwf, hfn, hb, hbits, hrx, h⟩ := c
   exact handleDataMsg_spec w k j s r src fn bits rx w' dk hk hj hwf hfn hb hbits hrx h
+
+/-! ### validation of the forwarded message, exact routing -/
+
+theorem tscOf_range (mod : Option Trxd.Modulation) (bits : List Nat) :
+    (tscOf mod bits).2 = 0 ∧ 0 ≤ (tscOf mod bits).1 ∧ (tscOf mod bits).1 ≤ 7 := by
+  unfold tscOf
+  split
+  · cases h : trainSeqPick bits with
+    | none => exact ⟨rfl, by decide, by decide⟩
+    | some p =>
+      obtain ⟨t, s⟩ := p
+      obtain ⟨e, he, h1, h2, _⟩ := trainSeqPick_present bits t s h
+      obtain ⟨_, h3, h4⟩ := trainSeqs_ranges e he
+      dsimp only
+      rw [← h1, ← h2, h4]
+      exact ⟨rfl, by omega, by omega⟩
+  · exact ⟨rfl, by decide, by decide⟩
+
+/-- a forwarded message whose simulated metadata stay inside the protocol ranges validates -/
+theorem fwdMeta_validate (src r : Trx) (fn tn : Int) (pwr : Option Int) (bits : List Nat)
+    (cm : Trxd.RxMsg) (hm : Spec.FwdMeta src r (some fn) (some tn) pwr bits cm)
+    (hv1 : V1Meta r bits cm) (hok : Spec.RadioOk src r pwr bits.length)
+    (f0 : 0 ≤ fn) (f1 : fn < 2715648) (n0 : 0 ≤ tn) (n1 : tn ≤ 7) : cm.validate = .ok () := by
+  obtain ⟨hver, hlen, hr0, hr1, ht0, ht1, hci⟩ := hok
+  obtain ⟨v, hv, hva, hvb⟩ := hm.rssi_ok
+  obtain ⟨d, hd, hd0, hd1⟩ := hm.toa_ok
+  have hvr : -120 ≤ v ∧ v ≤ -47 := by
+    cases hf : r.fakeRssi with
+    | false =>
+      obtain ⟨a, ha, hv'⟩ := hva hf
+      obtain ⟨a', ha', h0, h1⟩ := hr0 hf
+      rw [ha] at ha'; injection ha' with ha'; subst ha'
+      omega
+    | true =>
+      have := hvb hf
+      have := hr1 hf
+      omega
+  have hbl : (bits.map Spec.softOf).length = bits.length := List.length_map _
+  rcases hver with h0 | h1
+  · exact Codec.validate_v0 cm fn tn v (d - 256 * src.ta) _ (by rw [hm.ver_eq, h0]) hm.fn_eq hm.tn_eq
+      f0 f1 n0 n1 hv hd hvr.1 hvr.2 (by omega) (by omega) hm.bits_eq (by rw [hbl]; exact hlen)
+  · obtain ⟨c, hc, c0, c1⟩ := hm.ci_ok (by omega)
+    obtain ⟨m1, m2, m3⟩ := hv1 (by omega)
+    obtain ⟨q0, q1, q2⟩ := tscOf_range (Trxd.Modulation.pickByBl bits.length) bits
+    have hci' := hci h1
+    obtain ⟨mod, hmod⟩ : ∃ mod, Trxd.Modulation.pickByBl bits.length = some mod := by
+      rcases hlen with h | h
+      · rw [h]; exact ⟨_, pickByBl_values.1⟩
+      · rw [h]; exact ⟨⟨1, by decide⟩, by decide⟩
+    have hmbl : (mod.bl : Int) = bits.length := (pickByBl_first _ _ hmod).1
+    exact Codec.validate_v1 cm fn tn v (d - 256 * src.ta) c _ _ mod _ (by rw [hm.ver_eq, h1])
+      hm.fn_eq hm.tn_eq f0 f1 n0 n1 hv hd hvr.1 hvr.2 (by omega) (by omega) hc (by omega) (by omega)
+      (by rw [m1, hmod]) m3 m2 q0 q1 q2 hm.nope_eq hm.bits_eq (by rw [hbl]; exact_mod_cast hmbl.symm)
+
+/-- C02 in one equation: with all simulated metadata inside the protocol ranges, transceiver `k`
+gets exactly one datagram iff it is a recipient — except that a suppressed burst (C18) yields
+nothing on a version-0 link (and one NOPE.ind on a version-1 link) -/
+theorem forwardMsg_exact (w : World) (j : Nat) (s : Trxd.TxMsg) (src : Trx) (fnI tn : Int)
+    (bits : List Nat) (w' : World) (out : List Dgram)
+    (hj : w.trxs[j]? = some src) (hfn : s.fn = some fnI) (htn : s.tn = some tn)
+    (hb : s.burst = some bits) (hbits : ∀ b ∈ bits, b < 256) (hok : Spec.FreqOk w fnI.toNat)
+    (hwf : ∀ t ∈ w.trxs, Spec.DropWF t) (hd : Spec.DistinctDataPorts w)
+    (f0 : 0 ≤ fnI) (f1 : fnI < 2715648) (n0 : 0 ≤ tn) (n1 : tn ≤ 7)
+    (hradio : ∀ k ∈ Spec.recipients w j fnI.toNat, ∀ r, w.trxs[k]? = some r →
+      Spec.RadioOk src r s.pwr bits.length)
+    (h : forwardMsg w j s = .ok (w', out)) (k : Nat) (tk : Trx) (hk : w.trxs[k]? = some tk) :
+    Spec.deliveredTo tk out =
+      if k ∈ Spec.recipients w j fnI.toNat ∧ ¬ (Spec.suppressed src tk fnI = true ∧ tk.hdrVer = 0)
+      then 1 else 0 := by
+  obtain ⟨h0, h1⟩ := forwardMsg_delivered w j s src fnI bits w' out hj hfn hb hbits hok hwf hd h k tk hk
+  by_cases hm : k ∈ Spec.recipients w j fnI.toNat
+  · obtain ⟨dk, hcs, _, hlen, _⟩ := h1 hm
+    have hr := hradio k hm tk hk
+    rw [hlen]
+    cases hs : Spec.suppressed src tk fnI with
+    | true =>
+      rcases hr.1 with hv | hv
+      · rw [hcs.supp_v0 hs (by omega), if_neg (fun h => h.2 ⟨rfl, hv⟩)]; rfl
+      · obtain ⟨cm, hn, hdk⟩ := hcs.supp_v1 hs (by omega)
+        rw [hv, hfn, htn] at hn
+        rw [hdk, (isNope_genMsg cm fnI tn false hn f0 f1 n0 n1).2,
+          if_pos ⟨hm, fun h => by rw [hv] at h; exact absurd h.2 (by decide)⟩]
+        rfl
+    | false =>
+      obtain ⟨cm, hmeta, hv1, hdk⟩ := hcs.fwd hs
+      rw [hfn, htn] at hmeta
+      have hval := fwdMeta_validate src tk fnI tn s.pwr bits cm hmeta hv1 hr f0 f1 n0 n1
+      rcases dgramsOf_genMsg tk cm true with ⟨_, b, _, e⟩ | ⟨hne, _⟩
+      · rw [hdk, e, if_pos ⟨hm, fun h => by cases h.1⟩]; rfl
+      · exact absurd hval hne
+  · rw [h0 hm, if_neg (fun h => hm h.1)]
 
 end OsmoVerif.World
